@@ -121,7 +121,7 @@ PROPS["C11"] = dict(
 )
 PROPS["C02"] = dict(
     buffer_kind="picture", also_tags=["C01"],
-    units=["sauce", "xbin_load", "fonts", "bin_load", "idf_load", "tnd_load", "tdf_load", "icy_load", "buf_sauce", "palette_load", "buf_new",
+    units=["sauce", "xbin_load", "fonts", "bin_load", "idf_load", "tnd_load", "tdf_load", "icy_load", "buf_sauce", "palette_load", "buf_new", "sixel_layers",
            "term_core", "ansi_cmds", "emu_ascii", "emu_atascii", "emu_avatar", "emu_ctrla", "emu_pcboard", "emu_renegade", "emu_petscii"],
     trusted_base=LOADER_TRUST + TERM_TRUST[len(COMMON_TRUST):],
     unverified_remainder=["IcyDraw (unit icy_load): read_utf8_encoded_string and the two layer-chunk blocks of load_buffer (first chunk: title, fixed header, picture or first rows of cells; continuation chunk: further rows / picture bytes) are sliced out of the function and proved total on every payload up to 1 GiB, with the declared layer size capped at 65535 x 65535 before rows are allocated; NOT decided: the chunk dispatch itself (PNG decoder callbacks, zTXt, base64, the regex on the chunk name, `get_mut(layer_num)`, the ICED / PALETTE / SAUCE / FONT arms - FONT calls BitFont::from_bytes, proved in unit fonts), (both further defects a sub-agent saw on the clean tree - Buffer::from_bytes on a path without extension and Palette::load_palette(Ase) = todo!() - are now obligations of units sauce and palette_load and were repaired)", "Palette::load_palette: only the dispatch over the formats is decided (no reachable panic macro, ASE returns an error); the five regex-driven text parsers are opaque arms (rule ARMBODY)",
